@@ -458,6 +458,42 @@ def r7_operators_for_containers(ctx, cls, mod):
                   "with only __iter__/__getitem__) raises AttributeError although `in` works on the value")
 
 
+INPLACE = ['__iadd__', '__isub__', '__imul__', '__imatmul__', '__itruediv__', '__ifloordiv__', '__imod__', '__ipow__',
+           '__ilshift__', '__irshift__', '__iand__', '__ixor__', '__ior__']
+
+
+def r9_inplace(ctx, sym, cls, mod):
+    ctx.rule('R9', "augmented assignment: Python falls back to the binary dunder (a new proxy) when a class has no "
+                   "in-place dunder; any __i<op>__ the proxy does define is executed abstractly on an immutable value "
+                   "(the operator returns a new object) and must not change what the proxy wraps - other names bound "
+                   "to the same proxy (and sandbox.result) would change with it, unlike the real immutable value")
+    from .. import symexec
+    defined = [fn for fn in cls.body if isinstance(fn, ast.FunctionDef) and fn.name in INPLACE]
+    for fn in defined:
+        ctx.analysed_function(mod, fn)
+        value, other, fresh = Obj('immutable-value'), Obj('other-operand'), Obj('new-object-from-the-operator')
+        me = symexec.self_obj(mod, cls.name, value=value, _actual_value=value)
+        me.attrs['__open__'] = True
+        symexec.method(me, '_clone_this_result', lambda v, *a, **k: Obj('proxy', value=v))
+        calls_ = {'operator.' + n.strip('_'): (lambda *a, **k: fresh) for n in INPLACE}
+        calls_.update({'operator.' + n.strip('_')[1:]: (lambda *a, **k: fresh) for n in INPLACE})
+        calls_['_unwrap_value_pair'] = lambda a, b: (value, other)
+        calls_['SandboxResult'] = lambda v, *a, **k: Obj('proxy', value=v)
+        def op_value(*a, **k):
+            return fresh
+        op_value._fd_callable = True
+        extra = {k: op_value for k in calls_ if k.startswith('operator.')}
+        fd = symexec.new_fd(sym, mod, calls=calls_, extra=extra)
+        got, raised = symexec.run(fd, fn, [other], bound_self=me, what='SandboxResult.' + fn.name)
+        ctx.check(raised is None and me.attrs.get('value') is value, 'R9', 'SandboxResult.%s:keeps-identity' % fn.name,
+                  mod, fn, "%s on a proxy of an immutable value %s" % (
+                      fn.name, 'raises %s' % raised.kind if raised is not None else
+                      'rebinds the value the proxy wraps: every other name bound to that proxy now reads the new value'),
+                  "first = call('score', 1); total = first; total += call('score', 2): afterwards `first` reads 30 "
+                  "although the student's function returned 10")
+    ctx.ok('R9', 'in-place dunders examined', sample={'defined': [f.name for f in defined]}, nontrivial=False)
+
+
 def run(ctx):
     sym = Symbols(ctx.repo)
     mod = ctx.repo.module(RESULT)
@@ -471,5 +507,6 @@ def run(ctx):
     r6_len(ctx, mod)
     r8_value_access(ctx, sym, mod)
     r7_operators_for_containers(ctx, cls, mod)
+    r9_inplace(ctx, sym, cls, mod)
     ctx.assume("value classes whose __op__ and reflected __rop__ disagree with each other are not modelled")
     ctx.assume("CPython's binary operator protocol (own method, then reflected method, then TypeError) is the oracle")
